@@ -54,6 +54,8 @@ FIRST = {
     'a03-C03': 'missed (same change as a02, written independently) -> T2 flag-honoured',
     'a06-C09': 'missed -> P1 no-shortcut-round-the-kind-switch',
     'a09-C18': 'missed -> new rule T8 (field listings read the class, never the instance)',
+    'a08-C13': 'missed -> D2 reads-the-callers-namespace (every mode read names the namespace parameter; the recorded flag is that read alone)',
+    'a04-C05': 'missed -> W2 node-function-on-every-path (per kind, no way round the f_node call)',
     'z07-C15': 'analysis error in C13 only (restore moved into a local helper) -> D1 looks through the helper, the statement CFG lets exceptions no handler matches escape `except Exception`, D1 added to C15',
 }
 
